@@ -129,6 +129,7 @@ type Prop struct {
 	NeedsInstr       []string // instrumentation rules that must have matched
 	DeathIsViolation bool
 	MemKB            int // ulimit -v for workers (0 = 8 GiB)
+	ZoneOffsetS      int // != 0: workers and replays of this property run with time.Local set to this fixed offset from UTC
 }
 
 var Registry = map[string]*Prop{}
@@ -137,6 +138,15 @@ var Registry = map[string]*Prop{}
 var Children = map[string]func(args []string){}
 
 func Register(p *Prop) { Registry[p.ID] = p }
+
+// applyZone sets the process's local time zone before anything of the property runs (no goroutine exists yet that
+// could read time.Local).  A property whose oracle does not depend on the zone can so be decided in a zone other
+// than the UTC every test of the sandbox runs in.
+func applyZone(p *Prop) {
+	if p != nil && p.ZoneOffsetS != 0 {
+		time.Local = time.FixedZone(fmt.Sprintf("VZ%+d", p.ZoneOffsetS), p.ZoneOffsetS)
+	}
+}
 
 // Guard runs f and converts a panic into (panicked=true, text).
 func Guard(f func()) (panicked bool, text string) {
@@ -581,6 +591,7 @@ func worker(args []string) {
 	dir := args[5]
 	dl, _ := strconv.ParseInt(args[6], 10, 64)
 	p := Registry[id]
+	applyZone(p)
 	c := &Ctx{Prop: p, Tier: tier, Seed: seed, Shard: shard, Of: of, Dir: dir,
 		Deadline: time.Now().Add(time.Duration(dl) * time.Second), R: NewResult(), InstrOK: loadInstr()}
 	for _, rule := range p.NeedsInstr {
@@ -628,6 +639,7 @@ func replay(path string) int {
 		fmt.Fprintln(os.Stderr, "no replay for", art.Property)
 		return 2
 	}
+	applyZone(p)
 	d, _ := os.MkdirTemp("/dev/shm", "vreplay.")
 	defer os.RemoveAll(d)
 	c := &Ctx{Prop: p, Tier: "quick", Of: 1, Dir: d, Deadline: time.Now().Add(10 * time.Minute), R: NewResult(), InstrOK: loadInstr()}
